@@ -110,6 +110,7 @@ pub fn execute_with(
         Mode::Replay { .. } => None,
     };
     world::PANIC_INFO.with(|p| *p.borrow_mut() = None);
+    crate::seams::simthread::reset();
     let mut fresh = World::new(image.clone(), mode, collect, verbose);
     fresh.hard = hard;
     world::install(fresh);
@@ -117,6 +118,7 @@ pub fn execute_with(
         Gen::Layout => crate::gens::layout::run(),
         Gen::Likely => crate::gens::likely::run(),
     }));
+    crate::seams::simthread::reset();
     let w = world::uninstall();
     let mut exit_code = None;
     let panic = match r {
